@@ -132,6 +132,43 @@ theorem applyDFs_sameMeta : ∀ (fs : List (DFilter D)) (fm : FieldMeta) (s s' :
     · rw [h1, h2]; exact Or.inl ⟨e, rfl, rfl⟩
     · rw [h1, h2]; exact applyDFs_sameMeta fs m s1 s1'
 
+/-- stream filters (aligner / delta / rate): the planning outcome does not depend on the rows -/
+theorem applyRXF_sameMeta (f : RXFilter) (fms : List FieldMeta) (s s' : RStream D) :
+    SameMeta (applyRXF O f (fms, s)) (applyRXF O f (fms, s')) := by
+  cases f with
+  | align p fill =>
+    simp only [applyRXF, alignRF]
+    split
+    · exact Or.inl ⟨_, rfl, rfl⟩
+    · exact Or.inr ⟨_, _, _, rfl, rfl⟩
+
+theorem applyDXF_sameMeta (f : DXFilter D) (fm : FieldMeta) (s s' : DStream D) :
+    SameMeta (applyDXF O f (fm, s)) (applyDXF O f (fm, s')) := by
+  cases f with
+  | align p fill =>
+    simp only [applyDXF, alignDF]
+    split
+    · exact Or.inl ⟨_, rfl, rfl⟩
+    · exact Or.inr ⟨_, _, _, rfl, rfl⟩
+  | delta nn maxC =>
+    simp only [applyDXF, deltaF]
+    split
+    · exact Or.inl ⟨_, rfl, rfl⟩
+    · split
+      · exact Or.inl ⟨_, rfl, rfl⟩
+      · split
+        · exact Or.inl ⟨_, rfl, rfl⟩
+        · exact Or.inr ⟨_, _, _, rfl, rfl⟩
+  | rate unit ps nn maxC =>
+    simp only [applyDXF, rateF]
+    split
+    · exact Or.inl ⟨_, rfl, rfl⟩
+    · split
+      · exact Or.inl ⟨_, rfl, rfl⟩
+      · split
+        · exact Or.inl ⟨_, rfl, rfl⟩
+        · exact Or.inr ⟨_, _, _, rfl, rfl⟩
+
 /-- lists of results with the same metadata, or the same error -/
 def SameMetaL {μ σ : Type} (r r' : Except PlanErr (List (μ × σ))) : Prop :=
   (∃ e, r = .error e ∧ r' = .error e) ∨ ∃ l l', r = .ok l ∧ r' = .ok l' ∧ l.map (·.1) = l'.map (·.1)
@@ -141,6 +178,7 @@ mutual
   def eraseR : RDs D → RDs D
     | .static metas _ => .static metas []
     | .filtered ds fs => .filtered (eraseR ds) fs
+    | .xfiltered ds f => .xfiltered (eraseR ds) f
     | .join jt srcs => .join jt (eraseRL srcs)
     | .fromDs d => .fromDs (eraseD d)
   def eraseRL : RDsL D → RDsL D
@@ -149,6 +187,7 @@ mutual
   def eraseD : DDs D → DDs D
     | .static fm _ => .static fm []
     | .filtered d fs => .filtered (eraseD d) fs
+    | .xfiltered d f => .xfiltered (eraseD d) f
     | .reduction rt p afm fb srcs => .reduction rt p afm fb (eraseDL srcs)
     | .fromReport r urn => .fromReport (eraseR r) urn
   def eraseDL : DDsL D → DDsL D
@@ -171,6 +210,11 @@ mutual
       rcases execR_sameMeta fix from_ to ds with ⟨e, h1, h2⟩ | ⟨m, s1, s1', h1, h2⟩
       · rw [h1, h2]; exact Or.inl ⟨e, rfl, rfl⟩
       · rw [h1, h2]; exact applyRFs_sameMeta O fix fs m s1 s1'
+    | .xfiltered ds f => by
+      simp only [execR, eraseR, bind, Except.bind]
+      rcases execR_sameMeta fix from_ to ds with ⟨e, h1, h2⟩ | ⟨m, s1, s1', h1, h2⟩
+      · rw [h1, h2]; exact Or.inl ⟨e, rfl, rfl⟩
+      · rw [h1, h2]; exact applyRXF_sameMeta O f m s1 s1'
     | .join jt srcs => by
       simp only [execR, eraseR]
       rcases execRL_sameMeta fix from_ to srcs with ⟨e, h1, h2⟩ | ⟨l, l', h1, h2, hm⟩
@@ -205,6 +249,11 @@ mutual
       rcases execD_sameMeta fix from_ to d with ⟨e, h1, h2⟩ | ⟨m, s1, s1', h1, h2⟩
       · rw [h1, h2]; exact Or.inl ⟨e, rfl, rfl⟩
       · rw [h1, h2]; exact applyDFs_sameMeta O fs m s1 s1'
+    | .xfiltered d f => by
+      simp only [execD, eraseD, bind, Except.bind]
+      rcases execD_sameMeta fix from_ to d with ⟨e, h1, h2⟩ | ⟨m, s1, s1', h1, h2⟩
+      · rw [h1, h2]; exact Or.inl ⟨e, rfl, rfl⟩
+      · rw [h1, h2]; exact applyDXF_sameMeta O f m s1 s1'
     | .reduction rt period afm fb srcs => by
       simp only [execD, eraseD]
       split
